@@ -85,3 +85,90 @@ fn probe_from_ms() {
         }
     }
 }
+
+fn hex(b: &[u8]) -> String {
+    b.iter().map(|x| format!("{:02x}", x)).collect::<Vec<_>>().join("")
+}
+
+/// C04 postcondition of the message parser on shaped buffers in which the declared length LEN,
+/// the argument count NOAR and the payload bytes are independent of each other.
+#[test]
+fn probe_dlt_message_intern() {
+    use crate::parse::{dlt_message, ParsedMessage};
+    let mut rng = Rng(seed());
+    let msins: [u8; 6] = [0x41, 0x40, 0x26, 0x27, 0x25, 0x35];
+    let mut tried = 0u64;
+    for with_storage in [false, true] {
+        for flags in 0u8..32 {
+            for msin in msins {
+                for noar in 0u8..3 {
+                    for extra in 0usize..10 {
+                        let htyp = (1u8 << 5) | (flags & 0x1F);
+                        let ueh = htyp & 1 != 0;
+                        let mut headers = 4usize;
+                        for bit in [0x04u8, 0x08, 0x10] {
+                            if htyp & bit != 0 {
+                                headers += 4;
+                            }
+                        }
+                        if ueh {
+                            headers += 10;
+                        }
+                        let len = headers + extra;
+                        let mut buf: Vec<u8> = Vec::new();
+                        if with_storage {
+                            buf.extend_from_slice(b"DLT\x01");
+                            buf.extend_from_slice(&[1, 2, 3, 4, 5, 6, 7, 8]);
+                            buf.extend_from_slice(b"ECU\0");
+                        }
+                        let s = buf.len();
+                        buf.push(htyp);
+                        buf.push(7);
+                        buf.extend_from_slice(&(len as u16).to_be_bytes());
+                        while buf.len() < s + headers - if ueh { 10 } else { 0 } {
+                            buf.push(b'A' + (buf.len() % 7) as u8);
+                        }
+                        if ueh {
+                            buf.push(msin);
+                            buf.push(noar);
+                            buf.extend_from_slice(b"APP\0CTX\0");
+                        }
+                        // payload area: one well-formed U8 argument (type info UINT|TYLE=1, value) in
+                        // the message byte order, then pseudo-random bytes
+                        let big = htyp & 0x02 != 0;
+                        let ti: u32 = 0x41;
+                        buf.extend_from_slice(&(if big { ti.to_be_bytes() } else { ti.to_le_bytes() }));
+                        buf.push(0x2A);
+                        for _ in 0..12 {
+                            buf.push((rng.next() & 0xFF) as u8);
+                        }
+                        tried += 1;
+                        let total = buf.len();
+                        let b2 = buf.clone();
+                        let r = std::panic::catch_unwind(move || match dlt_message(&b2, None, with_storage) {
+                            Ok((rest, ParsedMessage::Item(_))) => Some((rest.len(), 0usize, 0u8)),
+                            Ok((rest, ParsedMessage::FilteredOut(n))) => Some((rest.len(), n, 1)),
+                            Ok((rest, ParsedMessage::Invalid)) => Some((rest.len(), 0, 2)),
+                            Err(_) => None,
+                        });
+                        match r {
+                            Err(_) => report("dlt_message_intern", format!("with_storage={} bytes={}", with_storage, hex(&buf)), "panic".into()),
+                            Ok(Some((rest_len, _n, kind))) => {
+                                let want = total - (s + len);
+                                if kind == 2 || rest_len != want || s + len > total {
+                                    report(
+                                        "dlt_message_intern",
+                                        format!("with_storage={} LEN={} headers={} NOAR={} bytes={}", with_storage, len, headers, noar, hex(&buf)),
+                                        format!("Ok with {} bytes left, the declared message ends {} bytes before the end of the buffer (kind {})", rest_len, want, kind),
+                                    );
+                                }
+                            }
+                            Ok(None) => {}
+                        }
+                    }
+                }
+            }
+        }
+    }
+    println!("probe_dlt_message_intern: {} shaped buffers, no failing input", tried);
+}
